@@ -825,3 +825,88 @@ def r_sibling_guard(cx):
                           "value in the other: one side of the domain is not guarded and comes back looking valid" % (
                               c.names[0], float(k)), cx.where(cx.f.fn(c.inv).d["span"]))
     cx.count("R-SIBLING-GUARD", "paired_limits", n)
+
+
+# ---------------------------------------------------------------------------------------------------------------------
+# R-NO-LAT-SHIFT (C14, C13): lat_0 of a transverse Mercator is an origin of northings, not a shift of the latitude
+
+TM = ("tmerc", "utm", "btmerc", "butm")
+
+
+@rule("R-NO-LAT-SHIFT", ["C14", "C13", "C01"])
+def r_no_lat_shift(cx):
+    """In the transverse Mercator family the latitude of origin enters through the meridian arc (the northing of
+    lat_0 on the central meridian is y_0): no forward function adds lat_0 to the latitude it reads, and no inverse adds
+    it to the latitude it writes - that would be a different projection (and is what made btmerc disagree with tmerc by
+    thousands of kilometres for lat_0 != 0)."""
+    reg = cx.registry()
+    n = 0
+    done = set()
+    for cpath, c in sorted(reg.ctors.items()):
+        names = [x for x in c.names if x in TM]
+        if not names:
+            continue
+        for role, fn in (("fwd", c.fwd), ("inv", c.inv)):
+            if not fn or fn in done:
+                continue
+            done.add(fn)
+            f = cx.f.fn(fn)
+            n += 1
+            bad = None
+            for bb, i, s in f.all_stmts():
+                if s["k"] != "assign" or s["rv"]["k"] != "bin" or s["rv"].get("op") not in ("Add", "Sub"):
+                    continue
+                a = f.operand(s["rv"]["a"], (bb, i))
+                b = f.operand(s["rv"]["b"], (bb, i))
+                for x, y in ((a, b), (b, a)):
+                    src = param_source(strip_transparent(_peel_rad(x)), cx.f)
+                    if src is not None and src[1] == "lat_0":
+                        # the other side: a latitude read from the tuple (forward) - any term that is an element of the
+                        # tuple read; or, inverse, anything at all (the sum is then written as the latitude)
+                        if role == "fwd" and _is_tuple_elem(y):
+                            bad = (bb, s)
+                        if role == "inv":
+                            bad = (bb, s)
+            cx.ob("R-NO-LAT-SHIFT", "%s/%s" % (names[0], role), bad is None,
+                  "%s %s: lat_0 is not added to a latitude" % (names[0], role) if bad is None else
+                  "%s %s adds lat_0 to %s: in a transverse Mercator lat_0 fixes the origin of the northings (meridian arc), "
+                  "it does not shift latitudes" % (names[0], role, "the latitude read" if role == "fwd" else "the latitude written"),
+                  cx.where(bad[1].get("span") or f.d["span"]) if bad else cx.where(f.d["span"]))
+    cx.count("R-NO-LAT-SHIFT", "functions", n)
+
+
+def _peel_rad(t):
+    t = mir.strip_refs(t)
+    for _ in range(3):
+        if t[0] == "call" and isinstance(t[1], str) and t[1].endswith(("to_radians", "to_degrees")) and t[2]:
+            t = mir.strip_refs(t[2][0])
+    return t
+
+
+def _is_tuple_elem(t):
+    t = mir.strip_refs(t)
+    return t[0] == "proj" and t[1][0] == "call" and isinstance(t[1][1], str) and \
+        t[1][1].rsplit("::", 1)[-1] in ("get_coord", "xy", "xyz", "xyzt")
+
+
+@rule("R-LATTS-K0", ["C13", "C05"])
+def r_latts_k0(cx):
+    """`lat_ts` of merc is equivalent to the corresponding k_0 and takes precedence over a given k_0 ("lat_ts trumps
+    k_0"): the value the constructor stores as k_0 when lat_ts is given is a function of lat_ts and the ellipsoid only -
+    it does not read the k_0 it replaces (which would make the scale on the parallel lat_ts k_0 instead of unity)."""
+    from rules.inverse import _keys_deep
+    f = cx.f.fn("inner_op::merc::new")
+    n = 0
+    for (bb, m, key, val) in K.inserts_in(cx.f, f):
+        if m != "real" or key != "k_0" or val is None:
+            continue
+        n += 1
+        ks = _keys_deep(f, val)
+        ok = "lat_ts" in ks and "k_0" not in ks
+        cx.ob("R-LATTS-K0", "merc/k_0", ok,
+              "the k_0 derived from lat_ts replaces a given k_0 (it depends on lat_ts and the ellipsoid only)" if ok else
+              "merc::new derives the k_0 it stores from %s: with both lat_ts and k_0 given, the scale on the parallel "
+              "lat_ts is no longer unity" % ", ".join(sorted(ks)), cx.where(f.term(bb)["span"]))
+    if n == 0:
+        cx.ob("R-LATTS-K0", "merc/k_0", False, "merc::new does not derive k_0 from lat_ts", cx.where(f.d["span"]))
+    cx.count("R-LATTS-K0", "inserts", n)
